@@ -568,6 +568,96 @@ fn code_id_instances(ctx: &Ctx) -> u64 {
     n
 }
 
+/// (g) an App replaced in place, and two Apps swapped: Apps are built over storage snapshots of
+/// earlier histories (no genesis writes of their own), asked a fixed battery of queries (supply
+/// and balances of every denomination, delegations, validators, contract and code info, raw dumps),
+/// then (i) the variable holding the first App is assigned a second App built over another
+/// snapshot, (ii) two live Apps are exchanged with `mem::swap`. Every App answers the battery
+/// exactly as an App over the same snapshot does when it is the only one its thread ever saw.
+fn replaced_instances(ctx: &Ctx) -> u64 {
+    fn over(snap: &SnapStorage, alt: bool) -> Inst {
+        let api = MockApi::default();
+        let app: DApp = AppBuilder::new().with_storage(snap.clone()).build(cw_multi_test::no_init);
+        let mut i = Inst { app, contracts: vec![], u: api.addr_make("u").into_string(), v: api.addr_make("v").into_string(), denom: if alt { "ualt" } else { "TOKEN" }, plain: String::new() };
+        i.app.store_code(Box::new(Puppet { tag: 1 }));
+        i.app.store_code(Box::new(cw_multi_test::ContractWrapper::new(plain_exec, plain_inst, plain_query)));
+        i
+    }
+    fn battery(i: &Inst) -> Vec<String> {
+        let q = i.app.wrap();
+        let mut out = vec![];
+        for d in ["x", "TOKEN", "ualt", "y"] {
+            out.push(format!("supply {} {:?}", d, q.query_supply(d).map_err(|e| e.to_string())));
+            for who in [&i.u, &i.v] {
+                out.push(format!("balance {} {} {:?}", who, d, q.query_balance(who.clone(), d).map_err(|e| e.to_string())));
+            }
+        }
+        for who in [&i.u, &i.v] {
+            #[allow(deprecated)]
+            out.push(format!("all balances {} {:?}", who, q.query_all_balances(who.clone()).map_err(|e| e.to_string())));
+            out.push(format!("delegations {} {:?}", who, q.query_all_delegations(who.clone()).map_err(|e| e.to_string())));
+            out.push(format!("delegation {} {:?}", who, q.query_delegation(who.clone(), "val").map_err(|e| e.to_string())));
+        }
+        out.push(format!("validators {:?}", q.query_all_validators().map_err(|e| e.to_string())));
+        out.push(format!("bonded {:?}", q.query_bonded_denom().map_err(|e| e.to_string())));
+        finish_transcript(i, out)
+    }
+    // snapshots: genesis of both configurations, and each after a short history that changes supplies
+    let mut snaps: Vec<(String, SnapStorage, bool)> = vec![];
+    for alt in [false, true] {
+        for h in [vec![], vec![DOp::Mint, DOp::Delegate], vec![DOp::Inst, DOp::Send, DOp::Mint, DOp::Mint]] {
+            let mut i = fresh_cfg(alt);
+            for op in &h {
+                apply(&mut i, *op);
+            }
+            snaps.push((format!("{} after {:?}", if alt { "other configuration" } else { "standard configuration" }, h), i.app.storage().clone(), alt));
+        }
+    }
+    let snaps = std::sync::Arc::new(snaps);
+    let n_snaps = snaps.len();
+    let solos: Vec<Vec<String>> = (0..n_snaps)
+        .map(|k| {
+            let s = snaps.clone();
+            std::thread::spawn(move || {
+                set_watch(Watch::default());
+                battery(&over(&s[k].1, s[k].2))
+            })
+            .join()
+            .unwrap()
+        })
+        .collect();
+    let mut n = 0u64;
+    for a in 0..n_snaps {
+        for b in 0..n_snaps {
+            let s = snaps.clone();
+            let (first, replaced, swapped_a, swapped_b) = std::thread::spawn(move || {
+                set_watch(Watch::default());
+                // (i) replaced in place
+                let mut slot = over(&s[a].1, s[a].2);
+                let first = battery(&slot);
+                slot = over(&s[b].1, s[b].2);
+                let replaced = battery(&slot);
+                // (ii) swapped
+                let mut p = over(&s[a].1, s[a].2);
+                let mut q = over(&s[b].1, s[b].2);
+                let _ = (battery(&p), battery(&q));
+                std::mem::swap(&mut p, &mut q);
+                (first, replaced, battery(&q), battery(&p))
+            })
+            .join()
+            .unwrap();
+            n += 1;
+            for (what, got, want_idx) in [("first App", &first, a), ("App assigned to the same variable", &replaced, b), ("first App after mem::swap", &swapped_a, a), ("second App after mem::swap", &swapped_b, b)] {
+                if *got != solos[want_idx] {
+                    let diff: Vec<(String, String)> = got.iter().zip(&solos[want_idx]).filter(|(x, y)| x != y).map(|(x, y)| (x.clone(), y.clone())).take(4).collect();
+                    ctx.violation("c19:instances-interfere:replaced-or-swapped", json!({"what": what, "first_snapshot": snaps[a].0, "second_snapshot": snaps[b].0, "first_differences (got, alone)": diff}));
+                }
+            }
+        }
+    }
+    n
+}
+
 pub fn run_c19(ctx: &Ctx) -> i32 {
     crate::tree::puppet::RECORD_ENV.store(true, std::sync::atomic::Ordering::Relaxed);
     let out = explore(ctx, true, false);
@@ -611,6 +701,7 @@ pub fn run_c19(ctx: &Ctx) -> i32 {
     }
     let (codec_seqs, _) = codec_instances(ctx, ctx.tier.pick(2, 3));
     let code_id_pairs = code_id_instances(ctx);
+    let replaced_pairs = replaced_instances(ctx);
     // (d) replay validation of an explicit-state exploration: states reached through snapshot
     // restore must equal the states reached by replaying their histories on one App
     let (regcov, _) = crate::reg::explore_registry(ctx, ctx.tier.pick(3, 4));
@@ -624,7 +715,7 @@ pub fn run_c19(ctx: &Ctx) -> i32 {
         "rule": "(a) every history over the operation alphabet up to the length bound, run on two independently built Apps, transcripts (results, events, data, code ids, addresses, checksums, invocation traces, final raw dump) compared; (b) every ordered pair of shorter histories on two Apps in one thread under every interleaving, each transcript compared with its solo transcript; (0) the same with a second, differently configured App (other bonded denomination, unbonding time, rate, commission, balances): solo transcripts of both configurations, and every pair of short histories under every interleaving and both construction orders; (c') histories with caught failures on one thread, directly and from another thread under extra stack frames, in this process (RUST_BACKTRACE=0) and in a second one with RUST_BACKTRACE=1: all four transcripts equal (the transcript includes every Reply verbatim - gas_used and error texts too - and the error texts of malformed and unanswerable queries); (c) digest of everything recomputed in a second OS process with 3 worker threads, which uses the two configurations in the opposite order; distinct_nontrivial = distinct transcripts",
         "exhaustive": true,
         "histories": out.histories, "history_pairs": out.pairs, "interleaved_runs": out.interleaved_runs,
-        "digest": mine, "digest_second_process": other, "environment_histories": eh.len(), "address_codec_call_sequences_each_on_its_own_thread": codec_seqs, "code_id_pairs_in_two_apps_each_on_its_own_thread": code_id_pairs,
+        "digest": mine, "digest_second_process": other, "environment_histories": eh.len(), "address_codec_call_sequences_each_on_its_own_thread": codec_seqs, "code_id_pairs_in_two_apps_each_on_its_own_thread": code_id_pairs, "snapshot_pairs_replaced_in_place_and_swapped": replaced_pairs,
         "registry_exploration_replayed": {"states": regcov["states"], "replays": regcov["traces_validated_against_impl"], "mismatches": regcov["replay_mismatches (hidden state; reported by C19)"]},
         "alphabet": ALL.iter().map(|o| format!("{:?}", o)).collect::<Vec<_>>(),
         "caps_hit": [],
